@@ -9,7 +9,7 @@ ASSUMPTIONS = [
     'the stream is an in-memory binary stream with the documented io.BytesIO failure behaviour: seek(n) raises ValueError for n < 0 and OverflowError for n >= 2^63, read past the end returns a short result',
     'h19_1: EVERY byte of the image is symbolic (sizes at every boundary of the header and of the first table entry); for images larger than the header the magic is fixed so that the paths are spent behind the identification',
     'h19_2 quick tier: offset-valued fields range over every value beyond the end of the file (in-file positions are enumerated in the thorough tier); all other fields over all values',
-    'h19_2: "time bounded by a small multiple of the file size" is measured as the number of stream reads plus engine decisions of one battery run: at most 64 x file size + 4096',
+    'h19_2: "time bounded by a small multiple of the file size" is measured as the number of stream reads plus engine decisions of one battery run: at most 16 x file size + 2048',
 ]
 STUBS = ['SymStream (io.BytesIO incl. seek/read failure contract)', 'SxPacker (struct.Struct)']
 OUTSIDE = ['random multi-field corruptions beyond pairs', 'seed files larger than 1 KiB', 'wall-clock time and allocator peaks (loop iterations and read counts are bounded instead)',
@@ -175,7 +175,7 @@ def h_battery(ctx):
     if trunc is not None:
         data = data[:trunc]
     st = ctx.stream(data) if ctx.symbolic else _Count(ctx.stream(data))
-    budget = 64 * len(data) + 4096
+    budget = 16 * len(data) + 2048
     # a loop that keeps reading (e.g. at end of file) is cut when it exceeds the budget and reported, instead of running into the
     # path budget of the engine (which would only be inconclusive)
     st.read_budget = budget
@@ -300,5 +300,5 @@ HARNESSES = [
     H('h19_2_battery', h_battery, _battery_instances, decoy=-1, expect=('terminated', 'ctor-ELFError'),
       desc='seed shared objects (sections, segments, symbols, dynamic table, notes, SysV and GNU hash) with one or two fields replaced by UNCONSTRAINED symbolic values (every count, size, offset, '
            'link, entry size, type of the file header, section / program headers, dynamic entries, hash and note words) or truncated at every table boundary: the enumeration battery of the '
-           'statement terminates on every path within 64 x file size + 4096 stream reads (paths longer than the decision budget are reported inconclusive, never as success)'),
+           'statement terminates on every path within 16 x file size + 2048 stream reads (paths longer than the decision budget are reported inconclusive, never as success)'),
 ]
